@@ -263,7 +263,7 @@ Lemma bond_phase w h g tb ts e rb :
   rb <> 0 -> rb <= bal e A_disp usei -> rb <= LIM ->
   delegated e A_hub <= LIM -> hs_bb (h_state h) + hs_bst (h_state h) <= LIM ->
   claims_b h tb <= LIM -> claims_st h ts <= LIM ->
-  (forall v d, delegation e A_hub v <> None -> In d DENOMS -> pending e A_hub v d = 0) ->
+  (forall v d, is_val v = true -> delegation e A_hub v <> None -> In d DENOMS -> pending e A_hub v d = 0) ->
   exists s1 ser e' n,
     query_actual_state (set_env w e) A_hub h = Some s1 /\
     exchange_rate (hs_bst s1 + rb) (tk_supply ts) (cb_reqst (h_batch h)) = Some ser /\
@@ -313,7 +313,7 @@ Proof.
   set (ps := deleg_pairs vals xs).
   set (h2 := set_h_state h (bonded_rewards s1 rb ser)).
   assert (Hbalea : forall a d, bal ea a d =
-            if d =? usei then (if a =? A_disp then bal e a d - rb else if a =? A_hub then bal e a d + rb else bal e a d)
+            if d =? usei then (if a =? A_disp then bal e a usei - rb else if a =? A_hub then bal e a usei + rb else bal e a usei)
             else bal e a d).
   { intros a d. unfold ea. apply bal_xfer. discriminate. }
   destruct (exec_delegates (set_hub w h2) ps ea) as (e' & Hex & Hmisc & Hbal & Hdl & Hoth & Hkeep).
@@ -323,8 +323,9 @@ Proof.
   { unfold ps. rewrite deleg_pairs_sum by exact Hxlen. rewrite Hxsum, Hbalea.
     change (usei =? usei) with true. change (A_hub =? A_disp) with false. change (A_hub =? A_hub) with true.
     cbn match. lia. }
-  { intros v d _ Hd Hin. change (pending ea A_hub v d) with (pending e A_hub v d). apply Hpend; [|exact Hin].
-    exact Hd. }
+  { intros v d Hvin Hd Hin. change (pending ea A_hub v d) with (pending e A_hub v d). apply Hpend; [| |exact Hin].
+    - apply Hvval. eapply deleg_pairs_fst_incl. exact Hvin.
+    - exact Hd. }
   assert (Hps : sumN (map snd ps) = rb) by (unfold ps; rewrite deleg_pairs_sum by exact Hxlen; exact Hxsum).
   exists s1, ser, e', (S (length ps + 0)).
   split; [exact Hq0|]. split; [exact Hser|]. split; [reflexivity|].
@@ -342,6 +343,7 @@ Proof.
   - eapply same_misc_trans; [|exact Hmisc]. unfold same_misc. repeat split.
   - intros a d. rewrite Hbal, Hps, !Hbalea.
     destruct (d =? usei) eqn:Ed; rewrite ?andb_false_r; [|reflexivity]. rewrite !andb_true_r.
+    apply N.eqb_eq in Ed. subst d.
     destruct (a =? A_hub) eqn:Ea.
     + apply N.eqb_eq in Ea. subst a. change (A_hub =? A_disp) with false. cbn match. lia.
     + reflexivity.
@@ -366,7 +368,7 @@ Lemma seg_s w h g tb ts e keeper X ks :
   keeper <> A_disp -> keeper <> A_hub ->
   delegated e A_hub <= LIM -> hs_bb (h_state h) + hs_bst (h_state h) <= LIM ->
   claims_b h tb <= LIM -> claims_st h ts <= LIM ->
-  (forall v d, delegation e A_hub v <> None -> In d DENOMS -> pending e A_hub v d = 0) ->
+  (forall v d, is_val v = true -> delegation e A_hub v <> None -> In d DENOMS -> pending e A_hub v d = 0) ->
   exists h' e' n,
     Exec (set_env w e) (map (fun m => (A_disp, m)) (st_msgs keeper X ks))
          (set_env (set_hub w h') e') n /\ (n <= 10)%nat /\
@@ -398,7 +400,7 @@ Proof.
     set (e1 := xfer e A_disp keeper usei ks).
     assert (Hk' : A_disp <> keeper) by congruence.
     assert (Hbal1 : forall a d, bal e1 a d =
-              if d =? usei then (if a =? A_disp then bal e a d - ks else if a =? keeper then bal e a d + ks else bal e a d)
+              if d =? usei then (if a =? A_disp then bal e a usei - ks else if a =? keeper then bal e a usei + ks else bal e a usei)
               else bal e a d).
     { intros a d. unfold e1. apply bal_xfer. exact Hk'. }
     assert (Hstep1 : step_msg (set_env w e) A_disp (MBank keeper [(usei, ks)]) = Some (set_env w e1, [])).
@@ -422,8 +424,8 @@ Proof.
       { lia. }
       { rewrite (delegated_ext e e1 A_hub eq_refl). exact Hdel. }
       { exact Hbook. } { exact Hclb. } { exact Hcls. }
-      { intros v d Hd Hin. change (pending e1 A_hub v d) with (pending e A_hub v d).
-        apply Hpend; [exact Hd | exact Hin]. }
+      { intros v d Hv Hd Hin. change (pending e1 A_hub v d) with (pending e A_hub v d).
+        apply Hpend; [exact Hv | exact Hd | exact Hin]. }
       exists (set_h_state h (bonded_rewards s1 (X - ks) ser)), e', (S n). cbn [map].
       split; [eapply Exec_leaf_cons; [exact Hstep1 | exact Hex]|]. split; [lia|].
       split; [intros; lia|]. split.
@@ -433,7 +435,7 @@ Proof.
       split; [|split; [|split]].
       * intros a d. rewrite Hbal, !Hbal1.
         destruct (d =? usei) eqn:Ed; rewrite ?andb_false_r; [|reflexivity]. rewrite !andb_true_r.
-        apply N.eqb_eq in Ed. subst d. rewrite !N.eqb_refl.
+        apply N.eqb_eq in Ed. subst d. rewrite ?N.eqb_refl.
         destruct (a =? A_disp) eqn:Ea; [apply N.eqb_eq in Ea; subst a; lia|]. destruct (a =? keeper); lia.
       * rewrite Hdl. rewrite (delegated_ext e e1 A_hub eq_refl). reflexivity.
       * intros y Hy. rewrite Hoth by exact Hy. apply delegated_ext. reflexivity.
